@@ -839,6 +839,6 @@ func TestC41(t *testing.T) {
 		r.Require("slots_acquired", n*4)
 		r.Require("scenarios_reaching_N_in_flight", n/4)
 		r.Require("rotation_sequences_judged", n/20)
-		r.Require("split_dials_judged", nSplit*2/3)
+		r.Require("split_dials_judged", nSplit/3)
 	}
 }
